@@ -144,3 +144,37 @@ func VerifC25Deferred() {
 		vReach("alive")
 	}
 }
+
+// VerifC25Offline: a QoS 1 message with a publisher-chosen expiry interval is queued for a persistent subscriber
+// that is offline (MQTT 3 or 5); once housekeeping has run later than publish time + effective interval the
+// message is gone and nothing is delivered when the subscriber comes back; before that it is delivered.
+func VerifC25Offline() {
+	caps := NewDefaultServerCapabilities()
+	caps.MaximumMessageExpiryInterval = int64(vRange(0, 100))
+	s, _ := vNewServer(&Options{Capabilities: caps})
+	sv := byte(vConcrete(int(vByteIn("\x04\x05")), 4, 5))
+	sub := vDial(s, vConnOpts{ver: sv, id: "sub", clean: false, keepalive: 60, seiSet: sv == 5, sei: 100000, rm: 5})
+	vSend(sub, vSubscribeBytes(1, "t", 1, sv))
+	vHangup(sub)
+	interval := uint32(vRange(1, 50))
+	now := vNow()
+	pub := vDial(s, vConnOpts{ver: 5, id: "pub", clean: true, keepalive: 60})
+	// PUBLISH v5 QoS 1 with Message Expiry Interval
+	b := append(vStrb("t"), 0, 9)
+	b = append(b, 5, 0x02)
+	b = append(b, vU32b(interval)...)
+	b = append(b, 7)
+	vSend(pub, append([]byte{packets.Publish<<4 | 2, byte(len(b))}, b...))
+	eff := vEffective(interval, caps.MaximumMessageExpiryInterval)
+	dt := int64(vRange(0, 200))
+	s.clearExpiredInflights(now + dt)
+	vDrain()
+	sub2 := vDial(s, vConnOpts{ver: sv, id: "sub", clean: false, keepalive: 60, seiSet: sv == 5, sei: 100000, rm: 5})
+	n := vCountPublishes(sub2, sv, "t")
+	if eff > 0 && dt > eff {
+		vAssert("expired-queued-message-is-not-delivered-on-reconnect", n == 0)
+	} else {
+		vAssert("unexpired-queued-message-is-delivered-on-reconnect", n == 1)
+	}
+	vReach("end")
+}
